@@ -215,7 +215,11 @@ func Entity(i int, e Ent) *gtfsrt.FeedEntity {
 				sel.Trip = concTD(s.Trip.Val())
 			}
 			if s.Prio.IsSome() {
+				// 'GTFS-ID:Priority'; priorities are written with and without a leading zero
 				so := fmt.Sprintf("MTASBWY:%s:%d", "A", s.Prio.Val())
+				if s.Prio.Val()%2 == 0 {
+					so = fmt.Sprintf("MTASBWY:%s:%02d", "G", s.Prio.Val())
+				}
 				proto.SetExtension(sel, gtfsrt.E_MercuryEntitySelector, &gtfsrt.MercuryEntitySelector{SortOrder: &so})
 			}
 			al.InformedEntity = append(al.InformedEntity, sel)
